@@ -544,6 +544,11 @@ def _h_isinstance(args, kw):
 
 
 def _h_type(args, kw):
+    if len(args) == 3 and type(args[0]) in (SymStr, SymTok):
+        # a class named by symbolic text: the name must be a real string - fork over its characters
+        eng = args[0].eng
+        name = ''.join(c if isinstance(c, str) else chr(eng.concretize(c)) for c in chars_of(args[0]))
+        return type(name, *args[1:], **kw)
     if len(args) == 1:
         a = args[0]
         ta = type(a)
@@ -818,7 +823,28 @@ def _sx_call(f, *args, **kw):
 
 _WRAPPER_DESCR = type(str.__add__)
 _FUNCTION = type(_sx_not)
+def _h_unidecode(args, kw):
+    a = args[0]
+    if type(a) in (SymStr, SymTok):
+        eng = a.eng
+        for c in chars_of(a):
+            if not isinstance(c, str) and not SymBool(eng, c < 128):
+                raise Unmodelled('unidecode of a symbolic non-ASCII character')
+        return a if type(a) is SymStr else a.value
+    return _unidecode_real(*args, **kw)
+
+
+try:
+    import unidecode as _unidecode_mod
+    _unidecode_real = _unidecode_mod.unidecode
+    _UNIDECODE = {_unidecode_mod.unidecode: _h_unidecode}
+    if hasattr(_unidecode_mod, 'unidecode_expect_ascii'):
+        _UNIDECODE[_unidecode_mod.unidecode_expect_ascii] = _h_unidecode
+except ImportError:
+    _UNIDECODE = {}
+
 _HANDLERS_PY = {_shlex.split: _h_shlex_split, _os.path.splitext: _h_splitext, _re.sub: _h_re_sub, _string.Template.substitute: _h_template_substitute}
+_HANDLERS_PY.update(_UNIDECODE)
 _METHOD = type(_string.Template('x').substitute)
 
 
